@@ -17,7 +17,7 @@ CHECKS = {
  "C01": dict(level=MC, design="§4 C01",
    technique="TLA+ spec Router.tla: TLC checks the radix-tree mechanism (register/merge, compression, child sort, take_through, search) against the segment-wise oracle over all registration orders; TLC-built applications (exhaustive + -simulate) and seeded random ones are assembled on the real router and every request's observation is judged by Trace_Router.tla (AllowedHandlers, ExpectedParams) Composition: end-to-end runs of the real Session::manage over loopback serving TLC-built and random applications are validated event by event (cfg(ohkami_verif) events of the session loop, fang/handler log) against Server.tla by Trace_Server; unexplained `handler` events and DispatchInv count for this property.",
    text="Within the bounds TLC proves that the modelled tree dispatches every bounded path as the oracle allows, whatever the registration order, and shows the byte-prefix counterexample without the segment-boundary condition. Applications emitted by TLC (every order of <=2/3 routes of depth <=2, method subsets, one mount level; simulated trees of up to 3 applications) plus random ones are built through the public API on the real code; requests derived from the routes (instances, one byte more/less per segment, extra/missing/empty segments, trailing slashes, every method) are parsed by the real Request::read and handled by the real router; handler identity, params, status and HEAD body are judged in TLA+. The composition adds ~1 900 (quick) / ~7 000 (thorough) connections whose every event is a step of Server.tla.",
-   note="routes with <=2 params; where the text leaves backtracking / method shadowing open both outcomes are accepted; of percent-escapes only the escaped slash is generated (one segment, never equal to a static one; whether another escape makes a segment "identical" to a static one is not asserted); routes of the parent below its own mount prefix are included except the trees the framework refuses at start-up; trusted: harness application assembly and concretisation table, response parser"),
+   note="routes with <=2 params; where the text leaves backtracking / method shadowing open both outcomes are accepted; of percent-escapes only the escaped slash is generated (one segment, never equal to a static one; whether another escape makes a segment identical to a static one is not asserted); routes of the parent below its own mount prefix are included except the trees the framework refuses at start-up; trusted: harness application assembly and concretisation table, response parser"),
  "C04": dict(level=MC, design="§4 C04",
    technique="TLA+ spec Router.tla/RouterApp.tla: TLC checks that the fang lists of the finalised tree equal the applications covering each path (scope and onion order) for every registration order; TLC-built application trees with instrumented fangs are run on the real router and the enter/leave log of every request is judged against OnionTrace by Trace_Router.tla Composition: the same end-to-end traces validated against Server.tla (every enter/leave event must extend a prefix of an onion trace of the request; the onion is complete when Router::handle returns); unexplained enter/leave/handled events count for this property.",
    text="TLC proves within the bounds that with the inherit+guarded-merge compression every path is wrapped by exactly the fangs of the applications whose mount prefix covers it, outermost first, and shows the counterexample for the original merge rule. Application trees emitted by TLC (exhaustive 2 applications, simulated 3 applications with up to 2 fangs each, local fangs, param/static mount prefixes, one early-answering fang) and random ones are assembled on the real code with logging fangs; for every request (hits, misses inside/outside each mount, near misses of the prefix, unregistered methods) the log must equal the onion trace computed in TLA+. The composition adds ~1 900 (quick) / ~7 000 (thorough) connections whose fang events are stepped through Server.tla.",
